@@ -106,6 +106,17 @@ def run(ctx):
     dup = [st for st in walk_local(f.node) if isinstance(st, ast.If) and canon(st.test)[0] == f'{idv} in self.contexts']
     dup_body = split_if(dup[0], lambda t: True)[0] if dup else []
     ok = bool(dup) and any(isinstance(x, ast.Assign) and is_name(x.targets[0], RES) and isinstance(x.value, ast.Constant) and x.value.value is False for x in dup_body)
+    if dup and not ok:
+        # ... or the reply was computed as the very test that sends a duplicate this way (`result = id not in contexts` just before `if result:`) and is not
+        # assigned again in the duplicate branch
+        pm_d = parent_map(f.node)
+        for fld in ('body', 'orelse', 'finalbody'):
+            lst = getattr(pm_d.get(dup[0]), fld, None)
+            if isinstance(lst, list) and dup[0] in lst and lst.index(dup[0]) > 0:
+                prev = lst[lst.index(dup[0]) - 1]
+                if isinstance(prev, ast.Assign) and len(prev.targets) == 1 and is_name(prev.targets[0], RES) and canon(prev.value) == (f'{idv} in self.contexts', False) \
+                        and not any(isinstance(x, ast.Assign) and is_name(x.targets[0], RES) for y in dup_body for x in ast.walk(y)):
+                    ok = True
     ctx.check('R1', 'registering an existing id answers False', ok, 'RemoteServer.run', 'duplicate-not-refused', 'a duplicate registration is not refused', where=loc(f, dup[0]) if dup else loc(f, f.node))
     # unknown context for a worker request -> skipped
     unk = []
@@ -125,8 +136,7 @@ def run(ctx):
     p = g.find_path(op_recv, lambda n: n in heads, edge_ok=lambda e: is_flow(e) and e.kind != 'exc', node_ok=lambda n: n.id not in reply)
     ctx.check('R1', 'every context operation is answered with `result`', bool(op_recv) and bool(reply) and p is None, 'RemoteServer.run', 'context-op-unanswered',
               'a context operation can complete without the client being answered: the client blocks in recv_msg', where=loc(f, f.node), path=path_str(p or []))
-    rinit = [st for st in walk_local(f.node) if isinstance(st, ast.Assign) and is_name(st.targets[0], RES) and isinstance(st.value, ast.Constant) and st.value.value is True]
-    ctx.check('R1', 'the reply defaults to True', bool(rinit), 'RemoteServer.run', 'reply-default', 'the reply of a context operation has no default', where=loc(f, f.node))
+    # (a default value of the reply is not required: reply-carried-over below demands an assignment in the iteration on every path to the reply)
     # ... and it is a per-request default: on every path from the head of the accept loop to the reply, the reply variable is assigned in that iteration
     res_stores = {n.id for n in g.nodes if n.stmt is not None and n.part in (None, 'store') and isinstance(n.stmt, ast.Assign) and any(is_name(t, RES) for t in n.stmt.targets)}
     reply_nodes = [n for n in g.nodes if n.id in reply]
@@ -134,7 +144,7 @@ def run(ctx):
     ctx.check('R1', 'the reply of a context operation is decided within the request that is answered', p2 is None and bool(reply_nodes), 'RemoteServer.run', 'reply-carried-over',
               'the reply variable is not (re)assigned in every iteration of the accept loop before it is sent: once one request has been answered False (a refused duplicate), every later '
               'context operation is answered False as well although the server carries it out - a created context nobody holds a handle for, a deleted one reported alive',
-              where=loc(f, rinit[0]) if rinit else loc(f, f.node), path=path_str(p2 or []))
+              where=loc(f, f.node), path=path_str(p2 or []))
 
     # ---------------------------------------------------------------- R3 delete chain
     dele = [st for st in walk_local(f.node) if isinstance(st, ast.If) and canon(st.test)[0] == f'{PAY} is None']
